@@ -323,9 +323,12 @@ func (tree *ParserT) parseStatement(exec bool) error {
 				if err != nil {
 					return err
 				}
-				// i don't know why I need the next 4 lines, but tests fail without it
-				tree.charPos++
+				// parseObject stops one character short of where parseArray stops: when not
+				// executing, step onto the closing brace and keep it in the parameter. When
+				// executing, processStatementFromExpr has already stepped onto it (another
+				// step would swallow the character after the object literal)
 				if !exec {
+					tree.charPos++
 					appendToParam(tree, '}')
 				}
 			case '(':
